@@ -56,16 +56,16 @@ def spaces(tier):
     q = tier == "quick"
 
     def gen_one():
-        for K in range(1, (4 if q else 5) + 1):
-            for N in range(2, (10 if q else (16 if K <= 4 else 12)) + 1):
+        nmax = {1: 10, 2: 10, 3: 10, 4: 10} if q else {1: 40, 2: 40, 3: 30, 4: 22, 5: 16, 6: 12}
+        for K in sorted(nmax):
+            for N in range(2, nmax[K] + 1):
                 yield ("NK", N, K)
 
     def gen_two():
         for K in range(1, (3 if q else 4) + 1):
-            for N1 in range(1, (6 if q else 8) + 1):
-                for N2 in range(1, (6 if q else 8) + 1):
-                    if not q and K == 4 and N1 + N2 > 12:
-                        continue
+            top = 6 if q else (10 if K <= 3 else 7)
+            for N1 in range(1, top + 1):
+                for N2 in range(1, top + 1):
                     yield ("NK2", N1, N2, K)
 
     def gen_mag():
@@ -77,8 +77,8 @@ def spaces(tier):
 
     return [
         Space("magnitude-boundary-family", gen_mag, "count vectors with an entry at 2^8, 55108/55109 (cube root / square root thresholds of int64), 2^16, 2^21, 3e6, 2^31-1 combined with 5 small/large companions (total sample size <= 2^31): integer-array path against the exact Fraction path of the same functions"),
-        Space("one-sample-all-count-vectors", gen_one, "every composition of N into K parts: K<=4, N=2..10 (quick); K<=5, N<=16 (K=5: N<=12) (thorough)", per_case=True),
-        Space("two-sample-all-count-vector-pairs", gen_two, "every pair of compositions: N1,N2<=6, K<=3 (quick); <=8, K<=4 (thorough)", per_case=True),
+        Space("one-sample-all-count-vectors", gen_one, "every composition of N into K parts: K<=4, N=2..10 (quick); N<=40 (K<=2), 30 (K=3), 22 (K=4), 16 (K=5), 12 (K=6) (thorough)", per_case=True),
+        Space("two-sample-all-count-vector-pairs", gen_two, "every pair of compositions: N1,N2<=6, K<=3 (quick); <=10 for K<=3, <=7 for K=4 (thorough)", per_case=True),
     ]
 
 
